@@ -1,42 +1,45 @@
 ---------------------------- MODULE Trace_C12h ----------------------------
 (* impl -> spec for C12 with hooks: every call of derived_table made by the low-index enumeration
    (cfg rust_dsymbols_verif: one `derive` event with the parent table, the edge from -g-> to, and
-   the result) is the transition function of the machine of LowIndex.tla: the result is the
-   deductive closure of the parent with the new edge, and None exactly when that closure is
-   contradictory (or the edge is not free).  For presentations whose relators all have at least two
-   letters the closure is unique and the code's queue reaches it (lemma QueueIsClosure), so no lawful
-   implementation can return anything else, and the parent of every call is itself a closed table.
-   With a relator of length one the closure may lawfully be lazy; see DeriveOK. *)
+   the result) is the transition function of the machine of LowIndex.tla: the code's result equals
+   LowIndex!DeriveQ (the queue discipline, transcribed) and, for presentations whose relators all have at least two
+   letters, the unique deductive closure LowIndex!Derive (lemma QueueIsClosure).  See "Level" below for what is
+   demanded and what is only noted. *)
 EXTENDS LowIndex, Json, IOUtils
 Rec == ndJsonDeserialize(IOEnv.TRACE)
 VARIABLES l, X
 Init == l = 1 /\ X = {}
 AsTable(k, rows) == [gens |-> k, img |-> rows]
-\* no fully defined relator instance of the table closes on two different rows
-NoContradiction(T, Xs) == Contradictions(T, Xs) = {}
+(* Level.  Statement level (a rejection is a violation): derived_table may return None only if the deductive closure of the
+   parent with the new edge is contradictory — pruning a consistent branch loses subgroup classes — and a returned table
+   must contain the new edge and nothing but forced deductions (it lies inside the closure whenever the closure is
+   consistent).  Conformance level (NOTE): the returned table IS the closure resp. what the code's queue computes (DeriveQ),
+   it has no contradiction of its own, and the parent is a closed table.  An implementation that deduces lazily (for
+   instance nothing at all when the edge opens a fresh row) still enumerates every class exactly once, provided complete
+   tables are what the API-level clauses of Trace_C12 demand; such a variation was observed (a seeded change that became
+   lawful once F15 was repaired) and must not be reported. *)
 DeriveOK(e) ==
    LET T == AsTable(e.gens, e.table)
        T1 == IF e.to = NRows(T) THEN AddRow(T) ELSE T
        want == Derive(T1, X, e.from, e.to, e.g)
-   IN IF ~HasUnitRelator(X)
-      THEN \* every relator has at least two letters: the queue of derived_table computes THE deductive closure
-           \* (LowIndex!QueueIsClosure), which is unique - no lawful implementation can return anything else
-           /\ (T # Root(e.gens) => ClosedTable(T, X))
-           /\ IF want = Fail THEN ~e.some ELSE e.some /\ AsTable(e.gens, e.out) = want
-      ELSE \* a relator of length one: a fresh row's loop may lawfully be deduced later (lazy closure).  Statement level:
-           \* None only if the closure is contradictory; a returned table contains the new edge, lies inside the closure
-           \* and has no contradiction of its own.  Equality with the code's queue discipline is conformance level.
-           LET wantQ == DeriveQ(T1, X, e.from, e.to, e.g)
-               out == AsTable(e.gens, e.out)
-           IN /\ (~e.some => want = Fail)
-              /\ (e.some => /\ Entry(T1, e.from, e.g) = Undef /\ Entry(T1, e.to, -e.g) = Undef
-                            /\ ExtendsT(out, Join(T1, e.from, e.to, e.g)) /\ NoContradiction(out, X)
-                            /\ (want # Fail => ExtendsT(want, out)))
-              /\ (IF (IF wantQ = Fail THEN ~e.some ELSE e.some /\ out = wantQ) THEN TRUE
-                  ELSE PrintT(<<"NOTE", "derived_table differs from LowIndex!DeriveQ", l>>))
+       out == AsTable(e.gens, e.out)
+   IN /\ (~e.some => want = Fail)
+      /\ (e.some => /\ Entry(T1, e.from, e.g) = Undef /\ Entry(T1, e.to, -e.g) = Undef
+                    /\ ExtendsT(out, Join(T1, e.from, e.to, e.g))
+                    /\ (want # Fail => ExtendsT(want, out)))
+DeriveConf(e) ==
+   LET T == AsTable(e.gens, e.table)
+       T1 == IF e.to = NRows(T) THEN AddRow(T) ELSE T
+       wantQ == DeriveQ(T1, X, e.from, e.to, e.g)
+       out == AsTable(e.gens, e.out)
+   IN /\ (IF wantQ = Fail THEN ~e.some ELSE e.some /\ out = wantQ)
+      /\ (~HasUnitRelator(X) => /\ (T # Root(e.gens) => ClosedTable(T, X))
+                                /\ wantQ = Derive(T1, X, e.from, e.to, e.g))
 Next == /\ l <= Len(Rec)
         /\ IF Rec[l].ev = "header" THEN X' = ExpandedRels(Rec[l].rels)
-           ELSE (Rec[l].ev = "derive" /\ DeriveOK(Rec[l])) = TRUE /\ UNCHANGED X
+           ELSE /\ (Rec[l].ev = "derive" /\ DeriveOK(Rec[l])) = TRUE
+                /\ (IF DeriveConf(Rec[l]) THEN TRUE ELSE PrintT(<<"NOTE", "derived_table differs from LowIndex!DeriveQ", l>>)) = TRUE
+                /\ UNCHANGED X
         /\ l' = l + 1
 Spec == Init /\ [][Next]_<<l, X>>
 Accepted == LET d == TLCGet("stats").diameter IN
